@@ -47,10 +47,13 @@ var (
 	}
 	bufferPool   = sync.Pool{}
 	programCache = caching.CreateProgramCache()
+	// programs compiled for addressable (pointer-value) operands
+	programCachePv = caching.CreateProgramCache()
 )
 
 func ResetProgramCache() {
 	programCache.Reset()
+	programCachePv.Reset()
 }
 
 func NewBytes() *[]byte {
